@@ -2529,6 +2529,11 @@ func (r *RIB) Flush(networkInstances []string) error {
 		}
 
 		for _, id := range backupNHGs {
+			if _, ok := niR.r.Afts.NextHopGroup[id]; !ok {
+				// The backup NHG is not installed in this network instance, or it was
+				// already removed because more than one NHG uses it as its backup.
+				continue
+			}
 			delNHG(id)
 		}
 
